@@ -19,8 +19,8 @@ namespace Yalafi
     * a text character is copied with its own position;
     * an accent call `\name ws {l}` / `\name ws l` whose backslash stands at position `p` is
       replaced by `accentChar T \name l` — the value of `unicodedata.lookup` for
-      `LATIN SMALL/CAPITAL LETTER L WITH <first name part of the accent>` — at `p` (a value of two
-      code points: at `p`, `p+1`);
+      `LATIN SMALL/CAPITAL LETTER L WITH <first name part of the accent>` — every character of the
+      value at `p` (also for a value of two code points, letter + combining mark);
     * a shorthand `a c` at `p` whose two characters form a key of the short macros of the language
       settings in force is replaced by the value of the table (possibly empty), every character of
       it at `p`;
@@ -106,16 +106,13 @@ theorem C02_shorthand_e2e (T : PTables) (o : Options) (fs : FS) (thresh : Nat)
 
 /-- **no output position lies inside a replaced sequence behind its first character**:
     `PlainAccent.spans 0 segs` lists the accent calls and shorthands as (0-based start, length);
-    output positions are 1-based; the table values of the accent calls of the document are
-    single characters (`hsingle`, computable). -/
+    output positions are 1-based.  (Every character a call produces is mapped to the first
+    character of the call, whatever the length of the table value.) -/
 theorem C02_replaced_first_char (T : PTables) (o : Options) (fs : FS) (thresh : Nat)
     (segs : List PlainAccent.Seg) (fuel : Nat) (st1 : PState)
     (hdefs : o.defs = []) (hextr : o.extr = []) (hrepl : o.hasRepl = false) (hunkn : o.unkn = false)
     (hinit : initParser T fuel o (initialState T o false fs) = .ok ((), st1))
-    (hok : PlainAccent.segsOk T st1 segs = true) (hf : (PlainAccent.render segs).length + 2 ≤ fuel)
-    (hsingle : ∀ sg ∈ segs, match sg with
-      | .acc name _ _ l => (PlainAccent.accVal T name l).length ≤ 1
-      | _ => True) :
+    (hok : PlainAccent.segsOk T st1 segs = true) (hf : (PlainAccent.render segs).length + 2 ≤ fuel) :
     ∃ r, tex2txt T fuel (PlainAccent.render segs) o false thresh fs = .ok r ∧
       ∀ q ∈ r.pos, ∀ sp ∈ PlainAccent.spans 0 segs, q ≤ sp.1 + 1 ∨ sp.1 + sp.2 < q := by
   obtain ⟨r, h1, _, h3, _⟩ :=
@@ -124,7 +121,7 @@ theorem C02_replaced_first_char (T : PTables) (o : Options) (fs : FS) (thresh : 
   intro q hq sp hsp
   rw [h3] at hq
   obtain ⟨cp, hcp, rfl⟩ := List.mem_map.mp hq
-  rcases PlainAccent.refOut_pos_first T st1 hsingle hcp hsp with h | h
+  rcases PlainAccent.refOut_pos_first T st1 hcp hsp with h | h
   · left; omega
   · right; omega
 
@@ -167,7 +164,8 @@ theorem C02_unicode_values_current :
 /-- a document with accent calls in all forms: braced (`\"{o}`, `\'{e}`, `\c{c}`, `\v{s}`), without
     braces behind a non-letter accent (`\"i`), with a blank behind a letter accent (`\c c`), with a
     line break and a blank in front of the group (`\H⏎ {O}`), and one whose value is a named
-    sequence of two code points (`\~{l}`) — for the tables of the current /repo:
+    sequence of two code points (`\~{l}`: both are mapped to the backslash, position 83) — for
+    the tables of the current /repo:
     `Sch\"{o}ne Gr\"{u}e, caf\'{e}.⏎Fran\c{c}ais, \v{s}koda; na\"ive gar\c con \H⏎ {O} \~{l}!` -/
 def C02_accent_doc : List PlainAccent.Seg :=
   [.txt "Sch".toList, .acc "\"".toList [] true 'o', .txt "ne Gr".toList, .acc "\"".toList [] true 'u',
@@ -189,7 +187,7 @@ theorem C02_accent_example_ref :
     (PlainAccent.refAcc Generated.theTables 0 C02_accent_doc).map (·.2 + 1)
         = [1, 2, 3, 4, 9, 10, 11, 12, 13, 14, 19, 20, 21, 22, 23, 24, 25, 30, 31, 32, 33, 34, 35, 36,
            41, 42, 43, 44, 45, 46, 51, 52, 53, 54, 55, 56, 57, 58, 59, 62, 63, 64, 65, 66, 67, 68, 72,
-           73, 74, 75, 82, 83, 84, 88] := by
+           73, 74, 75, 82, 83, 83, 88] := by
   decide +kernel
 
 /-- … which is what the model computes (evaluated by the kernel) -/
@@ -199,7 +197,7 @@ theorem C02_accent_example_eval :
      | .ok r => r.txt == "Schöne Grüe, café.\nFrançais, škoda; naïve garçon Ő l̃!".toList &&
          r.pos == [1, 2, 3, 4, 9, 10, 11, 12, 13, 14, 19, 20, 21, 22, 23, 24, 25, 30, 31, 32, 33, 34, 35,
            36, 41, 42, 43, 44, 45, 46, 51, 52, 53, 54, 55, 56, 57, 58, 59, 62, 63, 64, 65, 66, 67, 68,
-           72, 73, 74, 75, 82, 83, 84, 88] && r.unknowns.isEmpty
+           72, 73, 74, 75, 82, 83, 83, 88] && r.unknowns.isEmpty
      | _ => false) = true := by
   decide +kernel
 
